@@ -80,12 +80,17 @@ class RoutingTree(object):
         """
         yield self
 
-        for route, obj in self.children:
-            if isinstance(obj, RoutingTree):
-                for subchild in obj:
-                    yield subchild
-            else:
+        # NB: An explicit stack (rather than recursion) is used so that very
+        # deep trees can be iterated over without exhausting Python's stack.
+        stack = [iter(self.children)]
+        while stack:
+            for route, obj in stack[-1]:
                 yield obj
+                if isinstance(obj, RoutingTree):
+                    stack.append(iter(obj.children))
+                    break
+            else:
+                stack.pop()
 
     def __repr__(self):
         return "<RoutingTree at {} with {} {}>".format(
